@@ -56,6 +56,22 @@ def run(ctx):
         except Exception as e:
             failures.append({"what": f"inference raised on a permuted / duplicated collection: {type(e).__name__}: {e}; k={c['k']} values={c['vs_repr'][:200]}"})
             continue
+        # merging must not change the types it is handed: the same type objects merged a second time (and merged with
+        # their own result, as stub generation does with types that come out of one decoded row) give the same answer
+        try:
+            from monkeytype.typing import get_type, shrink_types
+            tys = [get_type(v, c["k"]) for v in vs]
+            before = [common.reify_type(t, ct) for t in tys]
+            r1 = common.reify_type(shrink_types(list(tys), c["k"]), ct)
+            after = [common.reify_type(t, ct) for t in tys]
+            r2 = common.reify_type(shrink_types(list(tys), c["k"]), ct)
+            if before != after or r1 != r2:
+                failures.append({"what": f"merging changed the very type objects it was given (the same inputs merged a second time "
+                                         f"give another answer): k={c['k']} values={c['vs_repr'][:200]}",
+                                 "k": c["k"], "values": c["vs_repr"], "first": r1[:600], "second": r2[:600],
+                                 "inputs_changed": before != after})
+        except Exception as e:
+            failures.append({"what": f"merging the same type objects twice raised {type(e).__name__}: {e}; k={c['k']} values={c['vs_repr'][:200]}"})
         vterms = common.coq_list(common.reify_value(v, ct) for v in vs)
         pterms.append(f"PCase {c['k']} {vterms} ({c['impl']}) ({t_perm}) {common.reify_value(dup, ct)} ({t_dup})")
         pcases.append({"k": c["k"], "values": c["vs_repr"], "shuffled": repr(sh)[:300], "repeated": repr(dup)[:200],
